@@ -142,10 +142,10 @@ ADDENDA = {
     "C02": " Also: equations whose first fold leaves numpy scalars, shared-id equations, second steps with the same rule objects, the -O child, earlier results re-inspected after later calls.",
     "C03": " Also: every text twice on one parser and once on a long-lived parser that has seen look-alikes, process-history noise between observations, CR LF pairs, control characters, texts with 60..170 function calls, integer literals around CPython's 4300-digit limit (known finding).",
     "C04": " Also: Printer.tla (implementation-shaped printer model, MC_Printer round-trips it through the reference grammar); printed text is re-parsed by a long-lived parser that has seen look-alikes; read-only calls and unrelated failing API calls precede printing; big-count texts printed after one distributive step.",
-    "C05": " Also: the sign view NonNeg (signed zeros, sign of infinities) and the type view IntTyped (factorials of hundreds of thousands stay integers) of EvalBig.tla; assignments handed over as dict subclasses (OrderedDict, defaultdict) and required to be unchanged; integers of up to 5001 digits; an exact rational view for equations between non-integer sides.",
+    "C05": " Also: the sign view NonNeg (signed zeros, sign of infinities) and the type view IntTyped (factorials of hundreds of thousands stay integers) of EvalBig.tla; assignments handed over as dict subclasses (OrderedDict, defaultdict) and required to be unchanged; integers of up to 5001 digits; an exact rational view for equations between non-integer sides. The IEEE special-value view ExtVal (binary-exponent intervals, exact at the leaves): overflowing products / quotients / sums give the signed infinity, inf - inf, inf * 0, inf / inf and anything / 0 give NaN, finite / inf a zero, and what stays inside the range stays finite (1,400 cases over operands up to 1.5e308).",
     "C06": " Also: used vs brand-new vs process-long rule objects, answers recorded earlier in the process for fixed trees, rule objects constructed in the opposite order, searches started at inner nodes, a second round of asking and applying on rewrite results (nan / inf / huge coefficients).",
     "C07": " Also: the rule must be handed the counterpart of the node that was asked about (worked_on_another_node); shared-id trees; in-place first steps; earlier results re-inspected after later calls.",
-    "C08": " Also: each instance asked again with float-typed whole exponents, with variable names that are equal but not identical strings, with both rule-construction call forms, and refused instances again with the two variables differing by case only.",
+    "C08": " Also: each instance asked again with float-typed whole exponents, with variable names that are equal but not identical strings, with both rule-construction call forms, and refused instances again with the two variables differing by case only. Mixed-operator chains (5 + (3x + y), 5 * ((3 + x) * y)) are documented non-applicable forms of constant arithmetic.",
     "C09": " Also: sessions mixing clone-per-step with in-place steps after find_nodes(), read-only calls after every step, integers of a thousand bits; TLC-generated model sessions (MC_RulesImpl_scripts) replayed into the real rules.",
     "C10": " Also: histories with reconfigured / replaced tokenizers (reported as notes), calls made from deep inside the caller's recursion, ValueError-type failures inside open groups repeated 130 times, brand-new parsers asked after the history.",
     "C11": " Also: one long-lived reconfigured Tokenizer per process answers every question too, both construction call forms, function tables with new name lengths, all ASCII control characters, CR LF pairs.",
